@@ -292,7 +292,14 @@ def run(ctx):
             dominated_by(ctx, 'C01.V1', se, e, lambda x: x['k'] == 'call' and x.get('name') == 'DiskInterface::WriteFile'
                          and mentions_field(x.get('args'), 'Builder::lock_file_path_'),
                          'the lock file is (re)written before it is stat\'ed', 'StartEdge:stat-before-touch')
-    ctx.floor('C01.V1', 7)
+    # every timestamp ninja compares is that of the file a path leads to: Stat follows symlinks
+    st = prog.fn('RealDiskInterface::Stat')
+    sc = [e for e in st.events('call') if e.get('name') in ('stat', 'stat64', 'lstat', 'lstat64', 'fstatat', 'fstatat64', '__xstat', '__lxstat')]
+    ctx.check('C01.V1', bool(sc) and all(e['name'] in ('stat', 'stat64', '__xstat') for e in sc), st.name, 'Stat:not-following-symlinks', st.loc,
+              'RealDiskInterface::Stat asks stat()/stat64() (the symlink target\'s mtime): %s' % sorted({e['name'] for e in sc}))
+    for f2, e2 in list(calls_to(prog, 'lstat')) + list(calls_to(prog, 'lstat64')):
+        ctx.violation('C01.V1', f2.name, 'lstat-user', f2.where(e2), 'lstat() is used in %s: mtimes of symlinks instead of their targets' % f2.name)
+    ctx.floor('C01.V1', 8)
 
     # ---- O3: the plan covers what the scan found -------------------------------------------------
     R('C01.O3', 'O', 'Plan::AddSubTarget recurses into every input, wants an edge iff its node is '
